@@ -258,6 +258,8 @@ inductive FLP (α : Type) where
   | flinEq (cs : List α) (xs : List Nat) (c : α)       -- FloatLinEq
   | flinLe (cs : List α) (xs : List Nat) (c : α)       -- FloatLinLe
   | flinNe (cs : List α) (xs : List Nat) (c : α)       -- FloatLinNe
+  | reif (op : CmpOp) (x y b : Nat)                    -- IntEqReif … IntGeReif { x, y, b }
+  | boolOr (ops : List Nat) (r : Nat)                  -- BoolOr { operands, result }
 
 /-- pending entries of `Model::pending_constraint_asts` -/
 inductive FPending (α : Type) where
@@ -380,6 +382,43 @@ def eqEdit (m : FLModel α) (v : Nat) (k : FVal α) : FLModel α :=
   | some (.flt _ _), .f x => m.setDom v (.flt x x)
   | _, _ => m
 
+/-- the `ReifiedBinary` arm of `materialize_constraint_kind`: `b ⇔ (l op r)`, both operands through
+`get_expr_var` -/
+def postReif (m : FLModel α) (l : FExpr α) (op : CmpOp) (r : FExpr α) (b : Nat) : FLModel α :=
+  let (m1, lv) := m.getExprVar l
+  let (m2, rv) := m1.getExprVar r
+  m2.post (.reif op lv rv b)
+
+/-- `c1.or(c2)` on two comparisons over integer operands (since the repair `fix: or of two
+comparisons is a disjunction`), as `LModel.reifOr` -/
+def reifOr (m : FLModel α) (l1 : FExpr α) (op1 : CmpOp) (r1 : FExpr α) (l2 : FExpr α) (op2 : CmpOp)
+    (r2 : FExpr α) : FLModel α :=
+  let (m1, b1) := m.newVar (.int LModel.boolDom)
+  let (m2, b2) := m1.newVar (.int LModel.boolDom)
+  let (m3, one) := m2.newVar (.int [1])
+  let m4 := m3.postReif l1 op1 r1 b1
+  let m5 := m4.postReif l2 op2 r2 b2
+  m5.post (.boolOr [b1, b2] one)
+
+/-- `is_int_expr`: only INTEGER variables of the model and integer literals (here the variable
+TYPES are consulted: the reified comparison propagators are integer propagators) -/
+def isIntExpr (m : FLModel α) : FExpr α → Bool
+  | .var i => match m.doms[i]? with
+    | some (.int _) => true
+    | _ => false
+  | .val (.i _) => true
+  | .val (.f _) => false
+  | .add a b => isIntExpr m a && isIntExpr m b
+  | .sub a b => isIntExpr m a && isIntExpr m b
+  | .mul a b => isIntExpr m a && isIntExpr m b
+  | .div a b => isIntExpr m a && isIntExpr m b
+  | .mod a b => isIntExpr m a && isIntExpr m b
+
+/-- the special case of the `Or` arm: `x == p or x == q` on ONE variable with INTEGER literals -/
+def sameVarEq : FExpr α → CmpOp → FExpr α → FExpr α → CmpOp → FExpr α → Option (Nat × Int × Int)
+  | .var x, .eq, .val (.i p), .var y, .eq, .val (.i q) => if x = y then some (x, p, q) else none
+  | _, _, _, _, _, _ => none
+
 /-- `materialize_constraint_kind` for `Binary` / `And` / `Or` / `Not` -/
 def materialize (m : FLModel α) : FCon α → FLModel α
   | .bin l op r =>
@@ -402,13 +441,19 @@ def materialize (m : FLModel α) : FCon α → FLModel α
   | .and a b => materialize (materialize m a) b
   | .or a b =>
     match a, b with
-    | .bin (.var x) .eq (.val (.i p)), .bin (.var y) .eq (.val (.i q)) =>
-      if x = y then
+    | .bin l1 op1 r1, .bin l2 op2 r2 =>
+      match sameVarEq l1 op1 r1 l2 op2 r2 with
+      | some (x, p, q) =>
         /- `x == p or x == q` with INTEGER literals: a fresh set variable unified with `x` -/
         let d : Dom := if p = q then [p] else if p < q then [p, q] else [q, p]
         let (m1, dv) := m.newVar (.int d)
         m1.post (.eqVV x dv)
-      else materialize (materialize m a) b
+      | none =>
+        /- two comparisons over integer operands: reified disjunction; a float variable or a float
+        literal anywhere, and every other shape: still "both constraints are posted" -/
+        if m.isIntExpr l1 && m.isIntExpr r1 && m.isIntExpr l2 && m.isIntExpr r2 then
+          m.reifOr l1 op1 r1 l2 op2 r2
+        else materialize (materialize m a) b
     | _, _ => materialize (materialize m a) b
   | .not a => materialize m a
 
@@ -672,5 +717,7 @@ def LP.toF {α : Type} : LP → FLP α
   | .linEq cs xs c => .linEq cs xs c
   | .linLe cs xs c => .linLe cs xs c
   | .linNe cs xs c => .linNe cs xs c
+  | .reif op x y b => .reif op x y b
+  | .boolOr ops r => .boolOr ops r
 
 end Selen
